@@ -1,4 +1,4 @@
-import GN.EventLoop.JsOrder
+import GN.EventLoop.JsOrderLemmas
 
 /-! `C18 <ncbs> (<nacts> <k:a:d:n:h>…)… => <event>…` -/
 
@@ -47,7 +47,8 @@ def handle (toks : List String) : String :=
           | .error e => "SPECFAIL " ++ e.replace " " "_"
         let a := if prog.timerFree then
             let m := runProgram prog
-            if m == log then "" else "MODELDIFF " ++ " ".intercalate (m.map Ev.toString)
+            if !completeB prog 10000 then "MODELDIFF model-ran-out-of-fuel"
+            else if m == log then "" else "MODELDIFF " ++ " ".intercalate (m.map Ev.toString)
           else ""
         if a == "" && b == "" then (if prog.timerFree then "OK" else "OK-ORACLE") else (a ++ " " ++ b).trimAscii.toString
     | _ => "BADLINE"
